@@ -43,6 +43,18 @@ pub fn packets(tier: &str, seed: u64, big: bool) -> Vec<(Packet<'static>, String
             v.push((p, format!("type:{}", KIND_NAMES[kind])));
         }
     }
+    // one record of each kind whose RDATA names (SRV target, MX exchange, IPSECKEY gateway, SOA names ...) are all the
+    // root name, owned by a non-root name
+    for kind in 0..N_KINDS {
+        let mut p = Packet::new_reply(kind as u16);
+        g.root_only = true;
+        let rd = g.rdata(kind);
+        g.root_only = false;
+        if matches!(rd, rdata::RData::OPT(_)) { continue; }
+        p.answers.push(ResourceRecord::new(g.name(), CLASS::IN, 7, rd));
+        p.answers.push(g.rr_of(0));
+        v.push((p, format!("root-names:{}", KIND_NAMES[kind])));
+    }
     let n = if thorough { 40_000 } else { 2_500 };
     for i in 0..n {
         g.share = if i % 3 == 0 { 8 } else { 5 };
@@ -90,6 +102,27 @@ pub fn packets(tier: &str, seed: u64, big: bool) -> Vec<(Packet<'static>, String
                 let other = names[(i * 7 + 3) % n_names].clone();
                 p.additional_records.push(ResourceRecord::new(n.clone(), CLASS::IN, 2, rdata::RData::CNAME(rdata::CNAME(other))));
             }
+            v.push((p, "many-names".to_string()));
+        }
+        // the longest legal name (255 octets: 63 + 63 + 63 + 61) as question, owner and RDATA name: repeated, it is a pointer
+        // like any other
+        for shape in [[63usize, 63, 63, 61], [1, 63, 63, 62 + 62]].iter().filter(|s| s.iter().all(|l| *l <= 63)) {
+            let labels: Vec<Vec<u8>> = shape.iter().enumerate().map(|(i, l)| vec![b'a' + i as u8; *l]).collect();
+            let long = crate::gen::mk_name(&labels);
+            let parent = crate::gen::mk_name(&labels[1..]);
+            let mut p = Packet::new_reply(255);
+            p.questions.push(Question::new(long.clone(), TYPE::A.into(), CLASS::IN.into(), false));
+            p.answers.push(ResourceRecord::new(long.clone(), CLASS::IN, 1, rdata::RData::A(rdata::A { address: 9 })));
+            p.name_servers.push(ResourceRecord::new(parent, CLASS::IN, 1, rdata::RData::NS(rdata::NS(long.clone()))));
+            v.push((p, "many-names".to_string()));
+        }
+        for labels in [127usize, 126] {
+            // 127 one-octet labels: 255 octets again, the most labels a name can have
+            let ls: Vec<Vec<u8>> = (0..labels).map(|i| vec![b'a' + (i % 26) as u8]).collect();
+            let long = crate::gen::mk_name(&ls);
+            let mut p = Packet::new_reply(127);
+            p.questions.push(Question::new(long.clone(), TYPE::A.into(), CLASS::IN.into(), false));
+            p.answers.push(ResourceRecord::new(long.clone(), CLASS::IN, 1, rdata::RData::CNAME(rdata::CNAME(long.clone()))));
             v.push((p, "many-names".to_string()));
         }
         // NSEC values whose (distinct) windows are held out of wire order, as construction from parts allows: the plain
@@ -443,6 +476,20 @@ pub fn c05(tier: &str, seed: u64) -> Vec<Case> {
         if let Some(want) = expected { if out != format!("ok {}", want) { c = c.fail("reference-encoding-misread", format!("the reference encoding of a packet does not parse to that packet: GOT {} WANT {}", &out[..out.len().min(700)], &want[..want.len().min(700)])); } }
         if out == "panic" { c = c.fail("parse-panic", "panic".into()); }
         if tag == "rdata-name-runs-over" && class_of(&out) != "err" { c = c.fail("rdata-overrun-accepted", "a name inside the RDATA runs past RDLENGTH into the next entry and the message is accepted".into()); }
+        v.push(c);
+    }
+    // encodings whose inner lengths overrun the RDATA (an OPT option, a character-string, a (key, length, value)
+    // triple claiming more than the RDLENGTH leaves) with another record after them: whatever is decided about the
+    // record, the following entry is not read from inside it and nothing is taken from beyond the RDLENGTH
+    for (mut b, rule) in crate::props::rfc::rule_breakers(tier == "thorough", seed ^ 0x5055) {
+        // a following record, announced in the header
+        b.extend_from_slice(&[1, b'z', 0, 0, 1, 0, 1, 0, 0, 0, 3, 0, 4, 10, 9, 8, 7]);
+        b[7] = b[7].wrapping_add(1);
+        let out = parse_out(&b);
+        let mut c = Case::new(format!("parse {}", text::hex(&b)), out.clone()).tag(&format!("rule-breaker:{}", rule)).tag(&format!("outcome:{}", class_of(&out)));
+        if let Some((k, m)) = framing_oracle(&b) { c = c.fail(&k, m); }
+        if out == "panic" { c = c.fail("parse-panic", "panic".into()); }
+        if rule.contains("overrun") && class_of(&out) == "ok" { c = c.fail("rdata-overrun-accepted", format!("{}: an inner length that overruns the RDATA is satisfied from the bytes of the next record", rule)); }
         v.push(c);
     }
     // valid packets too (mostly accepted)
